@@ -1,6 +1,4 @@
-import ScadVerif.Driver.Proto
-import ScadVerif.Model.Tri
-import ScadVerif.Spec.Mesh
+import ScadVerif.Driver.Geo
 namespace ScadVerif.Driver.C03
 open ScadVerif ScadVerif.Driver ScadVerif.Spec
 
@@ -33,54 +31,27 @@ def tilingCert (poly0 : List (Pt2 Float)) (tris : List Nat) (sameWinding : Bool)
     return [s!"triangle_count:{tris.length / 3}_of_{n - 2}"]
   if !(tris.all (· < n)) then return ["index_out_of_range"]
   let a2 := area2 poly
-  let scale2 := poly.foldl (fun m p => fmax m (fmax p.x.abs p.y.abs)) 0.0
+  let scale2 := poly.foldl (fun m p => fmax m (fmax p.x.abs p.y.abs)) F!(0.0)
   let scale2 := scale2 * scale2
   let want : Float := if sameWinding then a2 else -a2
-  let mut sum : Float := 0.0
-  let mut abssum : Float := 0.0
+  let mut sum : Float := F!(0.0)
+  let mut abssum : Float := F!(0.0)
   for t in triples tris do
     match t with
     | [i, j, k] =>
       let c := cross3 arr[i]! arr[j]! arr[k]!
       sum := sum + c
       abssum := abssum + c.abs
-      if c * want < 0.0 && c.abs > 1e-9 * a2.abs / n.toFloat then
+      if c * want < F!(0.0) && c.abs > F!(1e-9) * a2.abs / n.toFloat then
         fails := fails ++ ["triangle_wound_against_input"]
     | _ => pure ()
   if !(tilingEdges n tris sameWinding) then fails := fails ++ ["edges_do_not_tile_polygon"]
-  if !((sum - want).abs ≤ 1e-9 * (abssum + a2.abs) + 1e-300) then fails := fails ++ ["areas_do_not_sum_to_polygon_area"]
+  if !((sum - want).abs ≤ F!(1e-9) * (abssum + a2.abs) + F!(1e-300)) then fails := fails ++ ["areas_do_not_sum_to_polygon_area"]
   -- no overlap: with all triangles wound one way and signed areas summing to the polygon's area
   -- the unsigned areas sum to it too
-  if !((abssum - a2.abs).abs ≤ 1e-9 * (abssum + a2.abs) + 1e-300) then fails := fails ++ ["triangles_overlap"]
+  if !((abssum - a2.abs).abs ≤ F!(1e-9) * (abssum + a2.abs) + F!(1e-300)) then fails := fails ++ ["triangles_overlap"]
   let _ := scale2
   return fails.eraseDups
-
-/-- smallest relative distance of a vertex from the open chord between two other vertices:
-0 means some vertex lies exactly on a chord (the polygon touches a potential diagonal) -/
-def degeneracyMargin (poly : List (Pt2 Float)) : Float := Id.run do
-  let arr := poly.toArray
-  let n := arr.size
-  let mut best : Float := 1.0
-  for i in [0:n] do
-    for j in [i+1:n] do
-      let a := arr[i]!; let b := arr[j]!
-      let dx := b.x - a.x; let dy := b.y - a.y
-      let l2 := dx * dx + dy * dy
-      if l2 > 0.0 then
-        for k in [0:n] do
-          if k != i && k != j then
-            let c := arr[k]!
-            let t := ((c.x - a.x) * dx + (c.y - a.y) * dy) / l2
-            if 0.0 < t && t < 1.0 then
-              let d := (dx * (c.y - a.y) - dy * (c.x - a.x)).abs / l2
-              if d < best then best := d
-  return best
-
-/-- failures on inputs with a vertex within rounding distance of a chord are labelled as such
-(known finding: the ear test uses plain floating-point predicates) -/
-def labelDegenerate (poly : List (Pt2 Float)) (fails : List String) : List String :=
-  if fails.isEmpty || poly.length > 400 then fails
-  else if degeneracyMargin poly < 1e-9 then fails.map ("near_degenerate_input:" ++ ·) else fails
 
 def h2d (rev : Bool) : Handler := fun args impl => do
   let (ps, _) ← (listOf pt2).run args
